@@ -189,9 +189,11 @@ def merge_coarse_fine(interp, fine, coarse, on, how, fine_is_left=True):
         if cr.keys != ():
             coarse = _at_most_one_row(interp, coarse)
             cr = coarse.axis.root
-    elif how == "inner":
+    elif how in ("inner", "left"):
         if set(on) != set(cr.keys):
             raise Undecided(f"merge of a {fr.keys} frame with a {cr.keys} frame on {on}")
+        if how == "left" and not fine_is_left:
+            raise Undecided("left merge with the coarser frame on the left")
     else:
         raise Undecided(f"merge how={how!r} between aggregation levels")
     if len(fine.axis.doms) != 1:
@@ -205,7 +207,8 @@ def merge_coarse_fine(interp, fine, coarse, on, how, fine_is_left=True):
             raise Undecided("finer frame's key column is not the key itself")
         if c.nan is not None:
             nn.append(z3.Not(c.nan))
-    dom = z3.And(fine.axis.doms[0], cd, *nn)
+    matched = z3.And(cd, *nn)
+    dom = fine.axis.doms[0] if how == "left" else z3.And(fine.axis.doms[0], matched)
     ax = RowAxis(fr, [dom], fine.axis.order)
     out = Frame(ax, {}, ("range", ax.name), fine.idkey)
     first, second = (fine, coarse) if fine_is_left else (coarse, fine)
@@ -215,7 +218,14 @@ def merge_coarse_fine(interp, fine, coarse, on, how, fine_is_left=True):
                 if name in on:
                     continue
                 raise Undecided(f"column {name!r} on both sides of a merge between aggregation levels")
-            out.cols[name] = c if isinstance(c, Poison) else V(c.t, (ax,), out.index, c.nan, c.inf)
+            if isinstance(c, Poison):
+                out.cols[name] = c
+            elif how == "left" and f is coarse:
+                # an unmatched row of the finer (left) frame keeps its columns and gets nulls for the coarser ones
+                nan = z3.Not(matched) if c.nan is None else z3.Or(c.nan, z3.Not(matched))
+                out.cols[name] = V(c.t, (ax,), out.index, z3.simplify(nan), c.inf)
+            else:
+                out.cols[name] = V(c.t, (ax,), out.index, c.nan, c.inf)
     return out
 
 
@@ -255,7 +265,7 @@ def merge_with_parts(interp, left, right, how="inner", on=None, **kw):
     if kw:
         raise Undecided(f"merge options {sorted(kw)}")
     on = [] if on is None else [on] if isinstance(on, str) else list(on)
-    if how not in ("inner", "cross"):
+    if how not in ("inner", "cross", "left"):
         raise Undecided(f"merge how={how!r} with a multi-level table")
     results = []
     for p in right.parts:
@@ -270,6 +280,21 @@ def merge_with_parts(interp, left, right, how="inner", on=None, **kw):
         else:
             results.append(merge_coarse_fine(interp, left, p, on, how))
     names = list(left.cols) + [n for n in right.names if n not in left.cols and n not in on]
+    if how == "left":
+        # every left row is kept; it is paired with the matching rows of the (at most one) level that can match
+        if len(results) > 1:
+            raise Undecided("left merge with a multi-level table in which several levels can match")
+        if len(results) == 1:
+            out = results[0]
+            for n in names:
+                if n not in out.cols:
+                    out.cols[n] = _null_col(out, right._sort_of(n))
+            return out
+        out = left._new()
+        for n in names:
+            if n not in out.cols:
+                out.cols[n] = _null_col(out, right._sort_of(n))
+        return out
     if not results:
         empty = left.filter(V(z3.BoolVal(False), (left.axis,), None))
         for n in names:
